@@ -1,6 +1,7 @@
 package protocol
 
 import (
+	"errors"
 	"fmt"
 
 	"github.com/fxamacker/cbor/v2"
@@ -95,9 +96,13 @@ func (m *Message) MarshalBinary() ([]byte, error) {
 }
 
 func (m *Message) UnmarshalBinary(data []byte) error {
-	deserialized := m.toMarshallable()
-	if err := cbor.Unmarshal(data, deserialized); err != nil {
-		return nil
+	var deserialized *marshallableMessage
+	if err := cbor.Unmarshal(data, &deserialized); err != nil {
+		return fmt.Errorf("message: %w", err)
+	}
+	if deserialized == nil || deserialized.From == "" || deserialized.Protocol == "" {
+		// a CBOR null or an empty map decodes without error: every message names its sender and its protocol
+		return errors.New("message: no message in data")
 	}
 	m.SSID = deserialized.SSID
 	m.From = deserialized.From
